@@ -510,6 +510,16 @@ C09Prog(x) ==
 C09T1 == <<cA, cB>>
 C09T2 == <<cA, cSP, cB, NL, cA, cB>>
 
+(* combined maps whose outer and inner segments point anywhere (C17): lines *)
+(* 0 and beyond the contents, columns beyond the line, indices beyond the   *)
+(* tables, with and without names                                           *)
+C17Outer == {<<0, ol, oc, ni>> : ol \in {0, 1, 3}, oc \in {0, 1}, ni \in {-1, 0, 5}}
+C17Inner == {<<si, ol, oc, ni>> : si \in {-1, 0, 4}, ol \in {0, 1, 9}, oc \in {0, 9}, ni \in {-1, 0, 3}}
+C17Scope ==
+  IF Scope # "c17" THEN {} ELSE
+  {C09Prog(C09Sms(C09T1, <<Seg(1, 0, o)>>, <<Seg(1, gc, i)>>, w, rm)) :
+     o \in C17Outer, i \in C17Inner, gc \in {0, 1}, w \in BOOLEAN, rm \in BOOLEAN}
+
 C09OO ==
   IF Scope = "c09full" THEN C09OuterOrigs
   ELSE {<<-1, 0, 0, -1>>, <<0, 1, 1, 0>>, <<0, 2, 0, -1>>, <<1, 1, 0, -1>>}
@@ -908,6 +918,7 @@ ProgSet ==
   CASE Scope \in {"c01", "c02"} -> {Prog(<<Build(t)>> \o StreamObs) : t \in TreesSmall}
     [] Scope = "c05" -> Hist2 \cup Hist3
     [] Scope = "c13" -> LawScope
+    [] Scope = "c17" -> C17Scope
     [] Scope = "c04" -> C04Scope
     [] Scope = "c06" -> C06Scope
     [] Scope = "c06r" -> C06RScope
